@@ -35,6 +35,7 @@ CONSTANTS
   Generic,      \* TRUE = FailoverOf[V]
   LogOn,        \* a Logger is configured (log call-outs exist)
   StatOn,       \* a StatsTracker is configured (stats call-outs exist)
+  Mutability,   \* ObserveMutability: count rebuilt values that differ from the previous one (cache_changed)
   InitBeSet,    \* set of [Keys -> entry | None]: prepared backend contents to start from
   InitErrsSet,  \* set of [Keys -> entry | None]: prepared failure cache contents to start from
   MaxFaults,    \* budget of injected backend faults
@@ -107,8 +108,8 @@ Init ==
   /\ stored = [k \in Keys |-> IF be[k] = None THEN {} ELSE {be[k].v}]
   /\ writes = <<>>
   /\ bsrc = [k \in Keys |-> "init"]
-  /\ met = [build |-> 0, failed |-> 0, refreshed |-> 0]
-  /\ gh = [builds |-> 0, fails |-> 0, refreshes |-> 0]
+  /\ met = [build |-> 0, failed |-> 0, refreshed |-> 0, changed |-> 0]
+  /\ gh = [builds |-> 0, fails |-> 0, refreshes |-> 0, changes |-> 0]
   /\ faults = 0
   /\ fails = 0
   /\ running = "none"
@@ -120,13 +121,13 @@ Init ==
 Gates ==
   {"preread", "syncread", "refreshw", "bstart", "bend", "bwrite"}
     \cup (IF LogOn THEN {"waitlog", "refreshlog", "buildlog", "warnlog"} ELSE {})
-    \cup (IF StatOn THEN {"refreshstat", "failstat", "buildstat"} ELSE {})
+    \cup (IF StatOn THEN {"refreshstat", "failstat", "buildstat", "changestat"} ELSE {})
 
 (* Labels that do not exist in the code for the current configuration are   *)
 (* skipped.                                                                 *)
 Skipped(l) ==
   \/ (~LogOn /\ l \in {"waitlog", "refreshlog", "buildlog", "warnlog"})
-  \/ (~StatOn /\ l \in {"refreshstat", "failstat", "buildstat"})
+  \/ (~StatOn /\ l \in {"refreshstat", "failstat", "buildstat", "changestat"})
 
 Succ(l) ==
   CASE l = "waitlog"     -> "wait"
@@ -135,6 +136,7 @@ Succ(l) ==
     [] l = "buildlog"    -> "bstart"
     [] l = "failstat"    -> "errwrite"
     [] l = "buildstat"   -> "publish"
+    [] l = "changestat"  -> "buildstat"
     [] l = "warnlog"     -> "decide"
     [] OTHER             -> l
 
@@ -367,18 +369,22 @@ BStart(p) ==
   /\ Run(p, lrec)
   /\ UNCHANGED <<now, be, errs, stored, writes, bsrc, locks, lrec, nlock, res, produced, berrs, fails, met, faults>>
 
-(* Builder exit with outcome ok / fail and an optional TTL hint.            *)
-BEnd(p, ok, t) ==
+(* Builder exit with outcome ok / fail and an optional TTL hint.  With      *)
+(* `same` the builder returns the value it is replacing (nothing changed at *)
+(* the source), which is what ObserveMutability is about.                   *)
+BEnd(p, ok, t, same) ==
   /\ pc[p] = "bend"
+  /\ same => (ok /\ Mutability /\ loc[p].hasStale)
   /\ ~ok => fails < MaxFails
   /\ fails' = IF ok THEN fails ELSE fails + 1
   /\ building' = [building EXCEPT ![K(p)] = @ \ {p}]
   /\ LET n == loc[p].bn
          c == IF HasCell[p] THEN FoldTTL(loc[p].cell, t) ELSE loc[p].cell IN
      IF ok
-       THEN /\ produced' = [produced EXCEPT ![K(p)] = @ \cup {Tok(K(p), n)}]
-            /\ loc' = [loc EXCEPT ![p].bv = Tok(K(p), n), ![p].berr = NoVal, ![p].cell = c]
-            /\ StepA(p, "BEnd", "ok", t, "bwrite")
+       THEN LET v == IF same THEN loc[p].stale ELSE Tok(K(p), n) IN
+            /\ produced' = [produced EXCEPT ![K(p)] = @ \cup {v}]
+            /\ loc' = [loc EXCEPT ![p].bv = v, ![p].berr = NoVal, ![p].cell = c]
+            /\ StepA(p, "BEnd", IF same THEN "same" ELSE "ok", t, "bwrite")
             /\ UNCHANGED <<berrs, gh>>
        ELSE /\ berrs' = [berrs EXCEPT ![K(p)] = @ \cup {ETok(K(p), n)}]
             /\ loc' = [loc EXCEPT ![p].bv = NoVal, ![p].berr = ETok(K(p), n), ![p].cell = c]
@@ -406,6 +412,16 @@ ErrWrite(p) ==
   /\ UNCHANGED <<now, be, stored, writes, bsrc, locks, lrec, nlock, loc, res, building, nb, produced, berrs,
                  fails, met, gh, faults>>
 
+(* ObserveMutability: Failover compares with the stale value it refreshed   *)
+(* (none: no comparison); FailoverOf compares with that value or, without   *)
+(* one, with the zero value - so a cold build always counts as a change     *)
+(* there (as coded).  Without a StatsTracker nothing is counted (repaired   *)
+(* D15: the code dereferenced the nil tracker).                             *)
+Changed(p) ==
+  /\ Mutability
+  /\ Generic \/ loc[p].hasStale
+  /\ loc[p].bv # (IF loc[p].hasStale THEN loc[p].stale ELSE NoVal)
+
 (* Final store of the built value with the TTL of the caller's cell.        *)
 BuildWrite(p, fault) ==
   /\ pc[p] = "bwrite"
@@ -416,10 +432,18 @@ BuildWrite(p, fault) ==
             /\ Step(p, "BuildWrite", "fault", "buildstat")
             /\ UNCH_be
        ELSE /\ BeWrite(K(p), loc[p].bv, IF HasCell[p] THEN loc[p].cell ELSE 0, "build")
-            /\ Step(p, "BuildWrite", "ok", "buildstat")
+            /\ Step(p, "BuildWrite", "ok", IF Changed(p) THEN "changestat" ELSE "buildstat")
             /\ UNCHANGED loc
   /\ Run(p, lrec)
   /\ UNCHANGED <<now, errs, locks, lrec, nlock, res, building, nb, produced, berrs, fails, met, gh>>
+
+ChangeStat(p) ==
+  /\ pc[p] = "changestat"
+  /\ met' = [met EXCEPT !.changed = @ + 1]
+  /\ Step(p, "ChangeStat", "", "buildstat")
+  /\ Run(p, lrec)
+  /\ UNCHANGED <<now, be, errs, stored, writes, bsrc, locks, lrec, nlock, loc, res, building, nb, produced, berrs,
+                 fails, gh, faults>>
 
 BuildStat(p) ==
   /\ pc[p] = "buildstat"
@@ -508,10 +532,10 @@ ExtDelete(k) ==
 ---------------------------------------------------------------------------
 ProcNext(p) ==
   \/ Start(p) \/ Elect(p) \/ Branch(p) \/ WaitLog(p) \/ Wait(p) \/ RefreshLog(p) \/ RefreshStat(p)
-  \/ FailCheck(p) \/ Spawn(p) \/ BuildLog(p) \/ BStart(p) \/ FailStat(p) \/ ErrWrite(p) \/ BuildStat(p)
+  \/ FailCheck(p) \/ Spawn(p) \/ BuildLog(p) \/ BStart(p) \/ FailStat(p) \/ ErrWrite(p) \/ BuildStat(p) \/ ChangeStat(p)
   \/ Publish(p) \/ WarnLog(p) \/ Decide(p) \/ Release(p)
   \/ \E f \in BOOLEAN : PreRead(p, f) \/ SyncReadStep(p, f) \/ RefreshWrite(p, f) \/ BuildWrite(p, f)
-  \/ \E ok \in BOOLEAN, t \in TTLUpd : BEnd(p, ok, t)
+  \/ \E ok \in BOOLEAN, t \in TTLUpd, same \in BOOLEAN : BEnd(p, ok, t, same)
 
 Next ==
   \/ \E p \in Procs : ProcNext(p) /\ UNCHANGED now
